@@ -294,10 +294,10 @@ func runC09(tier string, seed int64) *Outcome {
 	o := &Outcome{}
 	exe, _ := os.Executable()
 	gens, scale := 3, 40
-	randKills, faultEvery := 150, 3
+	randKills, faultEvery := 150, 1
 	if tier == "thorough" {
 		gens, scale = 4, 300
-		randKills, faultEvery = 2000, 2
+		randKills, faultEvery = 2000, 1
 	}
 	root, err := os.MkdirTemp(tmpRoot(), "pxc09-")
 	if err != nil {
@@ -332,7 +332,7 @@ func runC09(tier string, seed int64) *Outcome {
 	for _, sc := range []string{"openat", "write", "close", "renameat", "renameat2", "rename"} {
 		for k := 1; k <= counts[sc]; k++ {
 			jobs = append(jobs, c09job{kind: "kill", syscall: sc, k: k})
-			if k%faultEvery == 0 || sc != "write" {
+			if k%faultEvery == 0 || sc != "write" || counts[sc] <= 40 {
 				errno := map[string]string{"write": "ENOSPC", "openat": "EMFILE", "close": "EIO", "renameat": "EIO", "renameat2": "EIO", "rename": "EIO"}[sc]
 				jobs = append(jobs, c09job{kind: "fault", syscall: sc, k: k, errno: errno})
 			}
@@ -593,7 +593,7 @@ func readerRace(root string, seed int64, tier string, tmpdir string) *CaseResult
 func init() {
 	register(&Check{
 		ID: "C09", Level: "fault_enumeration",
-		Rule:        "victim process `pxcheck saver` performs 3 (thorough: 4) saves of self-describing snapshots (generation g has n_g jobs, each job names g and n_g; sizes 0..40 (300) jobs, payload strings of every JSON-escaping class) through the real JsonDataStore, with its saving goroutine locked to one OS thread; a dry run under strace counts the openat / write / close / rename* system calls of that thread and then EVERY k in 1..count is used as a crash point (strace inject=<sc>:signal=SIGKILL:when=k) and every k (write: every 3rd / 2nd) as an I/O fault point (ENOSPC / EMFILE / EIO), plus SIGKILLs at PRNG-chosen microsecond offsets; after each run a FRESH process loads the directory (JsonDataStore.Load and an independent encoding/json decode) and the visible generation must be the last acknowledged one or the next one, complete; a failed save must report an error and leave the previous snapshot; 8 store instances on 8 directories save and load concurrently in one process (each file must hold its own store's last acknowledged snapshot); half of the victims and a second reader race run with TMPDIR on another file system than the data directory; plus 1 writer vs 4 readers in-process (every read one complete generation, never going backwards); plus sequences of 60 saves on one store instance whose consecutive snapshots differ by one small edit (same encoded length: status, digit, swap of two jobs, rename; identical repeats; returns to an earlier content; add / drop a job; the empty snapshot; a new store instance on the same directory in the middle of the sequence) - after every acknowledged save a fresh store instance and an independent decoder must return exactly that snapshot. evaluations = injection runs + reader reads; a situation is (injection kind, system call, visible generation, temp files left, acknowledged generation, failed saves)",
+		Rule:        "victim process `pxcheck saver` performs 3 (thorough: 4) saves of self-describing snapshots (generation g has n_g jobs, each job names g and n_g; sizes 0..40 (300) jobs, payload strings of every JSON-escaping class) through the real JsonDataStore, with its saving goroutine locked to one OS thread; a dry run under strace counts the openat / write / close / rename* system calls of that thread and then EVERY k in 1..count is used as a crash point (strace inject=<sc>:signal=SIGKILL:when=k) and every k as an I/O fault point (ENOSPC / EMFILE / EIO), plus SIGKILLs at PRNG-chosen microsecond offsets; after each run a FRESH process loads the directory (JsonDataStore.Load and an independent encoding/json decode) and the visible generation must be the last acknowledged one or the next one, complete; a failed save must report an error and leave the previous snapshot; 8 store instances on 8 directories save and load concurrently in one process (each file must hold its own store's last acknowledged snapshot); half of the victims and a second reader race run with TMPDIR on another file system than the data directory; plus 1 writer vs 4 readers in-process (every read one complete generation, never going backwards); plus sequences of 60 saves on one store instance whose consecutive snapshots differ by one small edit (same encoded length: status, digit, swap of two jobs, rename; identical repeats; returns to an earlier content; add / drop a job; the empty snapshot; a new store instance on the same directory in the middle of the sequence) - after every acknowledged save a fresh store instance and an independent decoder must return exactly that snapshot. evaluations = injection runs + reader reads; a situation is (injection kind, system call, visible generation, temp files left, acknowledged generation, failed saves)",
 		Assumptions: []string{"process death is modelled by SIGKILL at system call boundaries of the saving thread plus random instants; power loss (no fsync in the code) is outside the statement", "rename(2) atomicity of the kernel is trusted"},
 		Custom:      runC09,
 		MinDistinct: 12,
